@@ -25,8 +25,9 @@ func Family(quick bool) []*wm.World {
 	w1s := w1
 	w1s.Kind = "StatefulSet"
 	ic := wm.Workload{Kind: "Deployment", NS: "ns1", Name: "ingress-controller", Labels: map[string]string{"app": "b"}, Replicas: 1}
-	w1ns2 := wm.Workload{Kind: "Deployment", NS: "ns2", Name: "w1", Labels: map[string]string{"app": "a"}, Replicas: 1} // the same name in another namespace
-	topos := [][]wm.Workload{{w1, w2}, {w1, w3}, {w1, w2, w3}, {w1s, w2}, {w1, ic}, {w1, w1ns2}}
+	w1ns2 := wm.Workload{Kind: "Deployment", NS: "ns2", Name: "w1", Labels: map[string]string{"app": "a"}, Replicas: 1}                  // the same name in another namespace
+	wRes := wm.Workload{Kind: "Deployment", NS: "ingress-controller-ns", Name: "w9", Labels: map[string]string{"app": "a"}, Replicas: 1} // a real workload in the namespace the tool reserves
+	topos := [][]wm.Workload{{w1, w2}, {w1, w3}, {w1, w2, w3}, {w1s, w2}, {w1, ic}, {w1, w1ns2}, {w1, wRes}}
 	peersets := [][]wm.NPPeer{nil,
 		{{CIDR: "10.0.0.0/8"}},
 		{{CIDR: "10.0.0.0/9"}, {CIDR: "10.128.0.0/9"}},
@@ -90,6 +91,18 @@ func Family(quick bool) []*wm.World {
 			}
 			res = append(res, w)
 		}
+	}
+	// a Route / an Ingress whose backend is a Service without selector (ignored with a warning), next to one with a selector
+	for _, withSel := range []bool{false, true} {
+		w := &wm.World{WLs: []wm.Workload{w1p, w2}}
+		w.Svcs = []wm.Svc{{NS: "ns1", Name: "nosel", Sel: nil, Ports: []wm.SvcPort{{Name: "p1", Port: 80}}}}
+		w.Routes = []wm.Route{{NS: "ns1", Name: "r", To: []string{"nosel"}}}
+		w.Ings = []wm.Ing{{NS: "ns1", Name: "i", Default: &wm.Backend{Svc: "nosel", PortNum: 80}}}
+		if withSel {
+			w.Svcs = append(w.Svcs, wm.Svc{NS: "ns1", Name: "s", Sel: map[string]string{"app": "a"}, Ports: []wm.SvcPort{{Name: "p1", Port: 8080}}})
+			w.Routes = append(w.Routes, wm.Route{NS: "ns1", Name: "r2", To: []string{"s"}})
+		}
+		res = append(res, w)
 	}
 	return res
 }
